@@ -37,8 +37,12 @@ type c18Row struct {
 type c18Data struct {
 	T0   time.Time // wall clock at dataset creation, truncated to the hour (+20 min)
 	Base time.Time // midnight (UTC) of T0's day; the main data cluster is Base-13d .. Base-9d
-	Rows []c18Row
-	ByID map[int64]c18Row
+	// default.mx: ten consecutive days Base-26d .. Base-17d, day k compacted into a day-level
+	// file iff mxLayout[k]=='1'. The pattern 0001011100 contains every combination of
+	// hour-partitioned / compacted days for windows of 2 and of 3 consecutive days.
+	MxDays []time.Time
+	Rows   []c18Row
+	ByID   map[int64]c18Row
 }
 
 const hourUS = int64(3600_000000)
@@ -49,6 +53,18 @@ const dayUS = 24 * hourUS
 // a fixed old date would make every lower-bound-only query walk tens of thousands of paths.
 var c18Days = []int{-13, -12, -11, -10, -9} // days relative to Base
 var c18Hours = []int{0, 10, 11, 23}
+
+const mxLayout = "0001011100"
+const mxFirstDay = -26 // relative to Base
+
+// mxDayIndex returns the index of the mx day holding instant us, or -1.
+func (d *c18Data) mxDayIndex(us int64) int {
+	k := int((us - d.dayUS(mxFirstDay)) / dayUS)
+	if us < d.dayUS(mxFirstDay) || k >= len(mxLayout) {
+		return -1
+	}
+	return k
+}
 
 func (d *c18Data) dayUS(rel int) int64 { return d.Base.UnixMicro() + int64(rel)*dayUS }
 
@@ -74,6 +90,24 @@ func genC18Data(rng *rand.Rand) *c18Data {
 		}
 		d.Rows = append(d.Rows, r)
 		d.ByID[rid] = r
+	}
+	// default.mx: one row in (almost) every hour of ten days, plus rows exactly on the hour
+	// boundaries used by the range generator. The hours within 2 h of the wall clock's
+	// time-of-day stay empty, so that NOW() - INTERVAL 'n days' boundaries are >= 2 h away
+	// from every row.
+	h0 := d.T0.Hour()
+	for k := range mxLayout {
+		d.MxDays = append(d.MxDays, d.Base.AddDate(0, 0, mxFirstDay+k))
+		for h := 0; h < 24; h++ {
+			if dist := (h - h0 + 24) % 24; dist <= 2 || dist >= 22 {
+				continue
+			}
+			base := d.dayUS(mxFirstDay+k) + int64(h)*hourUS
+			add("default", "mx", base+1+rng.Int64N(hourUS-1))
+			if h == 0 || h == 2 || h == 13 || h == 22 {
+				add("default", "mx", base)
+			}
+		}
 	}
 	for _, tbl := range [][2]string{{"default", "sensor"}, {"default", "daily"}, {"db2", "sensor"}} {
 		db, m := tbl[0], tbl[1]
@@ -197,12 +231,22 @@ func c18Setup(c *vlib.Ctx, w int) (*env, *c18Data, bool) {
 		}
 		c.Count("day_level_files_created", 1)
 	}
+	for k, bit := range mxLayout {
+		if bit != '1' {
+			continue
+		}
+		if err := compactDay(tmp, e.n.Root, "default", "mx", d.MxDays[k], nil); err != nil {
+			tmp.Close()
+			return fail("compactDay mx: " + err.Error())
+		}
+		c.Count("day_level_files_created", 1)
+	}
 	tmp.Close()
 	if err := e.defineRefs("default", "db2"); err != nil {
 		return fail("reference: " + err.Error())
 	}
 	// sanity: every generated row is stored exactly once with its timestamp
-	for _, tbl := range [][3]string{{"", "sensor", "default"}, {"", "daily", "default"}, {"db2", "sensor", "db2"}} {
+	for _, tbl := range [][3]string{{"", "sensor", "default"}, {"", "daily", "default"}, {"", "mx", "default"}, {"db2", "sensor", "db2"}} {
 		_, got, err := refQuery(e.refs[tbl[0]], "SELECT rid, epoch_us(time) FROM "+tbl[1]+" ORDER BY rid")
 		if err != nil {
 			return fail("sanity: " + err.Error())
@@ -236,6 +280,7 @@ func c18Setup(c *vlib.Ctx, w int) (*env, *c18Data, bool) {
 //	XL/XU  the same comparison on event_time (a column whose name ends in "time")
 //	UP  uptime compared with a number        RV  literal on the left (reversed operands)
 //	TY  typed literal: TIMESTAMP '...' / CAST('...' AS TIMESTAMP)       P  other predicate
+//	TC  '<literal with UTC offset>'::TIMESTAMP (postfix cast of an offset literal)
 type tleaf struct {
 	Kind string `json:"kind"`
 	Col  string `json:"col"`
@@ -246,6 +291,7 @@ type tleaf struct {
 	Ival string `json:"interval,omitempty"`
 	Sign string `json:"sign,omitempty"`
 	Now  string `json:"now,omitempty"`
+	Off  int    `json:"offset_hours,omitempty"` // TC: UTC offset written in the literal
 	Text string `json:"text"`
 }
 
@@ -293,6 +339,10 @@ func (l *tleaf) render(alias string) string {
 			return fmt.Sprintf("%s %s TIMESTAMP '%s'", col, l.Op, fmtLit(l.US, 0))
 		}
 		return fmt.Sprintf("%s %s CAST('%s' AS TIMESTAMP)", col, l.Op, fmtLit(l.US, 0))
+	case "TC":
+		// the literal names instant l.US with an explicit offset and is cast with ::TIMESTAMP
+		t := time.UnixMicro(l.US).In(time.FixedZone("", l.Off*3600))
+		return fmt.Sprintf("%s %s '%s'::TIMESTAMP", col, l.Op, t.Format("2006-01-02T15:04:05-07:00"))
 	case "UP":
 		return fmt.Sprintf("%s %s %s", col, l.Op, l.Text)
 	}
@@ -356,9 +406,11 @@ func genLeaf(d *c18Data, rng *rand.Rand) *tleaf {
 		return &tleaf{Kind: "XU", Col: "event_time", Op: hi, US: c18Instants(d, rng), Fmt: []int{0, 4}[rng.IntN(2)]}
 	case k < 77:
 		return &tleaf{Kind: "UP", Col: "uptime", Op: []string{">", ">=", "<", "<="}[rng.IntN(4)], Text: []string{"50000", "'50000'", "1000", "'99000'"}[rng.IntN(4)]}
-	case k < 82:
+	case k < 81:
 		return &tleaf{Kind: "RV", Col: tcol, Op: []string{"<=", "<", ">", ">="}[rng.IntN(4)], US: c18Instants(d, rng), Fmt: f}
-	case k < 88:
+	case k < 85:
+		return &tleaf{Kind: "TC", Col: tcol, Op: []string{">=", ">", "<", "<="}[rng.IntN(4)], US: c18Instants(d, rng) / 1000000 * 1000000, Off: []int{2, -5, 9}[rng.IntN(3)]}
+	case k < 90:
 		return &tleaf{Kind: "TY", Col: tcol, Op: []string{">=", ">", "<", "<="}[rng.IntN(4)], US: c18Instants(d, rng), Fmt: rng.IntN(2)}
 	}
 	return &tleaf{Kind: "P", Text: []string{"host = 'h1'", "host <> 'h0'", "v > 0.5", "v <= 10", "rid % 3 = 0", "host IN ('h1', 'h2')"}[rng.IntN(6)]}
@@ -616,12 +668,92 @@ func genC18Q(d *c18Data, rng *rand.Rand) c18Q {
 	return q
 }
 
+// genMxQueries enumerates two-sided ranges over default.mx that cross 1..3 UTC midnights:
+// every window of the ten-day layout (24 windows, i.e. every combination of hour-partitioned
+// and compacted days for 2 and 3 consecutive days) x start time-of-day x end time-of-day
+// (5 x 5: end earlier than, equal to and later than the start, on and off hour boundaries).
+// The 600 combinations are dealt round-robin to the workers; `extra` random single-sided,
+// BETWEEN, NOW()-relative and offset-literal variants per worker follow.
+func genMxQueries(d *c18Data, rng *rand.Rand, w, workers, extra int) []c18Q {
+	tods := []int64{2 * hourUS, 2*hourUS + 1800_000000, 13 * hourUS, 22 * hourUS, 22*hourUS + 1800_000000}
+	leaf := func(kind, op string, us int64) *wnode {
+		return &wnode{Leaf: &tleaf{Kind: kind, Col: "time", Op: op, US: us, Fmt: []int{0, 0, 1, 3}[rng.IntN(4)]}}
+	}
+	mk := func(where *wnode) c18Q {
+		q := c18Q{Shape: "single", Table: "mx", Where: where}
+		switch rng.IntN(4) {
+		case 0:
+			q.Hdr = "default"
+		case 1:
+			q.Ref = "qdefault"
+		}
+		q.Tail = []string{"", "", " ORDER BY rid"}[rng.IntN(3)]
+		q.render()
+		return q
+	}
+	var out []c18Q
+	idx := 0
+	for m := 1; m <= 3; m++ { // midnights crossed
+		for i := 0; i+m < len(mxLayout); i++ {
+			for _, st := range tods {
+				for _, et := range tods {
+					idx++
+					lo, hi := d.dayUS(mxFirstDay+i)+st, d.dayUS(mxFirstDay+i+m)+et
+					if idx%workers != w {
+						rng.IntN(2) // keep the streams of all workers aligned
+						continue
+					}
+					out = append(out, mk(&wnode{Op: "AND", Kids: []*wnode{leaf("TL", []string{">=", ">"}[rng.IntN(2)], lo), leaf("TU", "<", hi)}}))
+				}
+			}
+		}
+	}
+	days := func(us int64) int { return int((d.T0.UnixMicro() - us) / dayUS) } // whole days back from now
+	for k := 0; k < extra; k++ {
+		i := rng.IntN(len(mxLayout) - 1)
+		m := 1 + rng.IntN(min(3, len(mxLayout)-1-i))
+		lo, hi := d.dayUS(mxFirstDay+i)+tods[rng.IntN(5)], d.dayUS(mxFirstDay+i+m)+tods[rng.IntN(5)]
+		var wh *wnode
+		switch rng.IntN(7) {
+		case 0: // single-sided lower bound (range runs to now+24h over all later days)
+			wh = leaf("TL", ">=", lo)
+		case 1: // single-sided upper bound
+			wh = leaf("TU", "<", hi)
+		case 2:
+			wh = &wnode{Leaf: &tleaf{Kind: "TB", Col: "time", US: lo, US2: hi + 1800_000000}}
+		case 3: // both bounds relative to NOW(): whole days, so the boundaries fall into the empty hours
+			kd, jd := days(lo)+1, days(hi)
+			if jd >= kd {
+				jd = kd - 1
+			}
+			wh = &wnode{Op: "AND", Kids: []*wnode{
+				{Leaf: &tleaf{Kind: "NL", Col: "time", Op: ">=", Now: "NOW()", Sign: "-", Ival: fmt.Sprintf("%d days", kd)}},
+				{Leaf: &tleaf{Kind: "NU", Col: "time", Op: "<", Now: "NOW()", Sign: "-", Ival: fmt.Sprintf("%d days", jd)}}}}
+		case 4: // literal start, NOW()-relative end
+			wh = &wnode{Op: "AND", Kids: []*wnode{leaf("TL", ">=", lo),
+				{Leaf: &tleaf{Kind: "NU", Col: "time", Op: "<", Now: "CURRENT_TIMESTAMP", Sign: "-", Ival: fmt.Sprintf("%d days", max(days(hi), 17))}}}}
+		case 5: // NOW()-relative start, literal end
+			wh = &wnode{Op: "AND", Kids: []*wnode{
+				{Leaf: &tleaf{Kind: "NL", Col: "time", Op: ">", Now: "now()", Sign: "-", Ival: fmt.Sprintf("%d hours", 24*(days(lo)+1))}}, leaf("TU", "<", hi)}}
+		default: // offset literal cast with ::TIMESTAMP on the upper / lower bound
+			off := []int{2, -5, 9}[rng.IntN(3)]
+			if rng.IntN(2) == 0 {
+				wh = &wnode{Op: "AND", Kids: []*wnode{leaf("TL", ">=", lo), {Leaf: &tleaf{Kind: "TC", Col: "time", Op: "<", US: hi, Off: off}}}}
+			} else {
+				wh = &wnode{Op: "AND", Kids: []*wnode{{Leaf: &tleaf{Kind: "TC", Col: "time", Op: ">=", US: lo, Off: off}}, leaf("TU", "<", hi)}}
+			}
+		}
+		out = append(out, mk(wh))
+	}
+	return out
+}
+
 func (q *c18Q) ordered() bool { return strings.Contains(q.Tail, "ORDER BY") }
 
 // ---------- the check ----------
 
 func checkC18(c *vlib.Ctx) {
-	c.Rule("per worker: default.sensor and db2.sensor in hour-level files, default.daily with compacted day-level files (whole days, a day with a day file plus a late hour file, hour-only days); rows exactly on hour boundaries (±1µs), in 2015/2019/2020-01/1999/1969, in 2040 and around the wall clock (main cluster: 13..9 days before today). Queries: WHERE trees (AND/OR/NOT, depth<=2) over time >/>=/</<= literal (7 literal formats incl. Z and +02:00), BETWEEN, NOW()/CURRENT_TIMESTAMP ± INTERVAL, typed literals, reversed operands, event_time / uptime predicates, other predicates; as single-table, aggregate, join, left join, IN-subquery (either side), derived table, UNION ALL and comment shapes; bare, \"default\".m and db2.m names, with and without x-arc-database. A query is non-trivial (counted) only if arc's log shows a pruned path list was used.")
+	c.Rule("per worker: default.sensor and db2.sensor in hour-level files, default.daily with compacted day-level files (whole days, a day with a day file plus a late hour file, hour-only days); default.mx: ten consecutive days (26..17 days ago), one row per hour, each day hour-partitioned or compacted following the pattern 0001011100 (every combination for 2 and 3 consecutive days); every two-sided range over mx crossing 1..3 midnights for 5x5 start/end times-of-day (end earlier/equal/later, on and off hour boundaries) is enumerated (600 ranges dealt to the workers) plus single-sided, BETWEEN, NOW()-relative and '<offset literal>'::TIMESTAMP variants; rows exactly on hour boundaries (±1µs), in 2015/2019/2020-01/1999/1969, in 2040 and around the wall clock (main cluster: 13..9 days before today). Queries: WHERE trees (AND/OR/NOT, depth<=2) over time >/>=/</<= literal (7 literal formats incl. Z and +02:00), BETWEEN, NOW()/CURRENT_TIMESTAMP ± INTERVAL, typed literals, reversed operands, event_time / uptime predicates, other predicates; as single-table, aggregate, join, left join, IN-subquery (either side), derived table, UNION ALL and comment shapes; bare, \"default\".m and db2.m names, with and without x-arc-database. A query is non-trivial (counted) only if arc's log shows a pruned path list was used.")
 	c.Assume("reference = same SQL text on a private DuckDB whose views read ALL files of each measurement")
 	c.Assume("pruned / not pruned is read from arc's own log events ('Partition pruning: Using …'); the pruner's counters are not exported through the handler")
 	c.Assume("NOW()-relative predicates: every stored row is >= 6 h away from every now±interval boundary in the pool (months: >= 8 days), so the two engines' clocks cannot disagree on membership; day files are written with DuckDB COPY into the day directory, the layout arc's daily compaction uses")
@@ -636,14 +768,14 @@ func checkC18(c *vlib.Ctx) {
 		wg.Add(1)
 		go func(w int) {
 			defer wg.Done()
-			c18Worker(c, w, n)
+			c18Worker(c, w, workers, n, c.N(40, 2000))
 		}(w)
 	}
 	wg.Wait()
 	c.Floor(c.N(120, 8000))
 }
 
-func c18Worker(c *vlib.Ctx, w, n int) {
+func c18Worker(c *vlib.Ctx, w, workers, n, mxExtra int) {
 	e, d, ok := c18Setup(c, w)
 	if !ok {
 		return
@@ -651,9 +783,14 @@ func c18Worker(c *vlib.Ctx, w, n int) {
 	defer e.close()
 	rng := c.Rand(fmt.Sprintf("c18-q-%d", w))
 	shrunk := map[string]int{}
-	nShrunk, nShrunkMulti := 0, 0
+	nShrunk, nShrunkMulti, nShrunkMx := 0, 0, 0
+	var queries []c18Q
+	queries = append(queries, genMxQueries(d, c.Rand(fmt.Sprintf("c18-mx-%d", w)), w, workers, mxExtra)...)
+	c.Count("mx_range_queries", int64(len(queries)))
 	for i := 0; i < n; i++ {
-		q := genC18Q(d, rng)
+		queries = append(queries, genC18Q(d, rng))
+	}
+	for _, q := range queries {
 		o := e.run(q.SQL, q.Hdr, q.ordered(), false)
 		c.Eval()
 		c.Count("queries_generated", 1)
@@ -679,6 +816,9 @@ func c18Worker(c *vlib.Ctx, w, n int) {
 			c.Count("pruned_shape_"+q.Shape, 1)
 			c.Count("pruned_partition_paths", int64(o.Log.Partitions))
 			c.Nontrivial(q.SQL + "|" + q.Hdr)
+			if q.Table == "mx" {
+				c.Count("mx_range_queries_pruned", 1)
+			}
 			if w == 0 {
 				c.Sample(map[string]any{"sql": q.SQL, "hdr": q.Hdr, "pruned_table_refs": o.Log.PrunedRefs, "partition_paths": o.Log.Partitions, "rows": o.Ref.NRows})
 			}
@@ -695,14 +835,21 @@ func c18Worker(c *vlib.Ctx, w, n int) {
 		c.Count("mismatch_shape_"+q.Shape, 1)
 		key := c18ProvKey(q)
 		multi := q.Shape != "single" && q.Shape != "agg" && q.Shape != "derived"
-		if shrunk[key] >= 2 || (!multi && nShrunk >= 18) || (multi && nShrunkMulti >= 12) {
+		mx := q.Table == "mx"
+		if mx {
+			c.Count("mx_range_mismatches", 1)
+		}
+		if shrunk[key] >= 2 || (mx && nShrunkMx >= 10) || (!mx && !multi && nShrunk >= 18) || (multi && nShrunkMulti >= 12) {
 			c.Count("mismatches_not_shrunk_same_provisional_class", 1)
 			continue
 		}
 		shrunk[key]++
-		if multi {
+		switch {
+		case mx:
+			nShrunkMx++
+		case multi:
 			nShrunkMulti++
-		} else {
+		default:
 			nShrunk++
 		}
 		mq, mo := c18Shrink(c, e, q, o)
@@ -717,6 +864,9 @@ func c18Worker(c *vlib.Ctx, w, n int) {
 // budget over different kinds of failures.
 func c18ProvKey(q c18Q) string {
 	k := q.Shape
+	if q.Table == "mx" {
+		k = "mx"
+	}
 	if q.Where.hasOp("OR") {
 		k += "|OR"
 	}
@@ -729,6 +879,9 @@ func c18ProvKey(q c18Q) string {
 	}
 	if kinds["XL"] || kinds["XU"] {
 		k += "|X"
+	}
+	if kinds["TC"] {
+		k += "|TC"
 	}
 	if !q.Where.hasOp("OR") && !q.Where.hasOp("NOT") {
 		if kinds["TL"] || kinds["NL"] {
@@ -879,6 +1032,9 @@ func c18Signatures(d *c18Data, q c18Q, o outcome) []string {
 	if q.Where.hasOp("NOT") {
 		return []string{"pruning changes the result: WHERE with NOT around a time range - files are restricted to the negated range"}
 	}
+	if kinds["TC"] {
+		return []string{"pruning changes the result: offset literal cast with ::TIMESTAMP - DuckDB drops the UTC offset of the literal, the pruner shifts the range by it"}
+	}
 	if kinds["XL"] || kinds["XU"] {
 		return []string{"pruning changes the result: a comparison on event_time (column name ending in 'time') is taken as a range on the partition time"}
 	}
@@ -887,6 +1043,19 @@ func c18Signatures(d *c18Data, q c18Q, o outcome) []string {
 		ks = append(ks, k)
 	}
 	sort.Strings(ks)
+	// last calendar day touched by the literal upper bound (for the mx classification)
+	lastDay := -1
+	for _, l := range q.Where.leaves() {
+		end := int64(-1)
+		if l.Kind == "TU" {
+			end = l.US
+		} else if l.Kind == "TB" {
+			end = l.US2
+		}
+		if end >= 0 {
+			lastDay = max(lastDay, d.mxDayIndex(end-1))
+		}
+	}
 	hasLower := kinds["TL"] || kinds["NL"] || kinds["TB"]
 	hasUpper := kinds["TU"] || kinds["NU"] || kinds["TB"]
 	regions := map[string]bool{}
@@ -905,6 +1074,17 @@ func c18Signatures(d *c18Data, q c18Q, o outcome) []string {
 		case t.After(now.Add(23*time.Hour)) && !hasUpper:
 			reg = "no upper time bound: the pruner assumes data ends at now+24h, later rows are lost"
 		}
+		if k := d.mxDayIndex(g.US); g.M == "mx" && k >= 0 && hasLower && hasUpper {
+			layout := map[byte]string{'0': "an hour-partitioned", '1': "a compacted (day-file)"}[mxLayout[k]]
+			switch {
+			case k == lastDay && mxLayout[k] == '1':
+				reg = "pruning drops the rows of a compacted day file on the last day of a range that crosses midnight"
+			case k == lastDay:
+				reg = "two-sided range crossing midnight: rows of " + layout + " last day are lost"
+			default:
+				reg = "two-sided range crossing midnight: rows of " + layout + " first/middle day are lost"
+			}
+		}
 		for _, l := range q.Where.leaves() {
 			if (l.Kind == "TU" && l.Op == "<=" && l.US == g.US) || (l.Kind == "TB" && l.US2 == g.US) {
 				if g.US%hourUS == 0 {
@@ -919,6 +1099,10 @@ func c18Signatures(d *c18Data, q c18Q, o outcome) []string {
 	}
 	var rs []string
 	for r := range regions {
+		if strings.HasPrefix(r, "pruning drops") {
+			rs = append(rs, r)
+			continue
+		}
 		rs = append(rs, "pruning changes the result: "+r)
 	}
 	sort.Strings(rs)
